@@ -31,7 +31,10 @@ def run_rewrite(pid, tier):
             if key in seen:
                 continue
             seen.add(key)
-            bases[case["id"]] = (case, obs)
+            # kept for the comparison and the report: without the variants, the mirror prediction and the projections
+            bases[case["id"]] = ({k: v for k, v in case.items() if k not in ("variants", "mirror")},
+                                 {k: ([{"rel": f["rel"], "hash": f["hash"]} for f in v] if k == "files" else v)
+                                  for k, v in obs.items() if k not in ("reg", "events")})
             for k, v in enumerate(case.get("variants", [])):
                 vid = case["id"] * 1000 + k + 1
                 meta[vid] = (case["id"], v["r"])
